@@ -17,7 +17,9 @@ ASSUMPTIONS = ["the destructor of the shared promise object runs after every cal
                "a callback awaiter's context is freed inside its callback, a coroutine's awaiter dies when the coroutine resumes (harness scenario recorded as EFree events)"]
 def gen(seed, tier): return cellcommon.gen(seed, tier, "waiters")
 def gen_stress(seed, tier): return cellcommon.gen_stress(seed, tier)
+def gen_aw(seed, tier): return cellcommon.gen_aw(seed, tier)
 nontrivial = cellcommon.nontrivial
 signature = cellcommon.signature
 PARTS = [{"name": "ctl_cell", "harness": "ctl_cell.cpp", "gen": gen, "no_shrink": False, "timeout_case": 10},
+         {"name": "seq_aw", "harness": "seq_aw.cpp", "gen": gen_aw, "no_shrink": False, "timeout_case": 10},
          {"name": "stress_cell", "harness": "stress_cell.cpp", "gen": gen_stress, "no_shrink": True, "timeout_case": 30}]
